@@ -237,11 +237,16 @@ def _build_loc(d):
 
 
 NATIVE.add(ERROR + ".set_error_location_if_unknown", _gen_loc, _build_loc)
+from .reader_link import reader_contracts  # noqa: E402  contracts of the namespace reader, proved in their own process (C10R)
+
 EXTRA_CHECKS = [c03.extra_whole_text_locations] if hasattr(c03, "extra_whole_text_locations") else []
+EXTRA_CHECKS = EXTRA_CHECKS + [reader_contracts]
 NOT_COVERED = [
-    "DSDLDefinition.read / _read_definitions: path injection `set_error_location_if_unknown(path=self.file_path)` (two call "
-    "sites, read; the callee contract above shows a known path is never overwritten, so a dependency's error keeps the "
-    "dependency's path)",
+    "DSDLDefinition.read: path injection `set_error_location_if_unknown(path=self.file_path)` is proved under C09/C13 "
+    "(raises-post#Error#path-attached), not here; _read_definitions: proved in its own process (runner C10R, extra check "
+    "reader_contracts): the escaping Error has the path it left read() with if known (a dependency's error keeps the "
+    "dependency's path), else the target's; the (line, text) handler given to read() delivers exactly once under "
+    "target_definition.file_path",
     "resolve_versioned_data_type (F3) is covered by the bounded native check only, not by a contract",
     "line numbers of syntax errors (DSDLSyntaxError from parsimonious.ParseError.line())",
 ]
